@@ -1,16 +1,19 @@
 #!/bin/bash
 # tools/mutcheck.sh <patch.diff> <Cnn> [<Cnn> ...]
-# Applies a seeded change to /repo, runs the given checks (quick tier) under a time limit,
-# and ALWAYS restores /repo afterwards. Prints the last lines of every check.
-patch="$1"; shift
-cd /repo || exit 2
-if ! git diff --quiet; then echo "/repo has uncommitted changes; refusing"; exit 2; fi
-trap 'cd /repo && git checkout -- . && git clean -fdq -e "*.db" 2>/dev/null; echo "[mutcheck] /repo restored: $(git -C /repo status --short | wc -l) modified files"' EXIT
-git apply "$patch" || { echo "patch does not apply"; exit 2; }
+# Runs the given checks (quick tier) against a scratch worktree of /repo with the seeded change
+# applied (VERIF_REPO); /repo itself is never touched, so unchanged-tree runs can go on in
+# parallel. The worktree is removed afterwards. Evidence goes to a scratch directory.
+patch="$(readlink -f "$1")"; shift
+wt=/var/tmp/mutrepo.$$
+git -C /repo worktree add -q --detach "$wt" HEAD || exit 2
+trap 'git -C /repo worktree remove --force "$wt" 2>/dev/null; rm -rf "$wt"; (cd /verif/harness && flock /verif/.build.lock go mod edit -replace=go.etcd.io/bbolt=/repo); echo "[mutcheck] scratch worktree removed"' EXIT
+git -C "$wt" apply "$patch" || { echo "patch does not apply"; exit 2; }
 cd /verif
 export VERIF_EVIDENCE_DIR=/var/tmp/mutcheck-evidence   # never overwrite the committed evidence with runs on a changed tree
+export VERIF_REPO="$wt"
+tier=${VERIF_MUT_TIER:-quick}
 for p in "$@"; do
   echo "=== $p with $(basename $(dirname $patch))/$(basename $patch)"
-  timeout 1500 ./check "$p" --tier quick 2>&1 | grep -E "^(VIOLATION|KNOWN-FINDING|check |  what|  broken|  also)" | cut -c1-400 | head -12
+  timeout 3000 ./check "$p" --tier $tier 2>&1 | grep -E "^(VIOLATION|KNOWN-FINDING|check |  what|  broken|  also)" | cut -c1-400 | head -12
   echo "    exit=${PIPESTATUS[0]}"
 done
